@@ -18,7 +18,7 @@ Lemma obj_ok_ext c st st' o :
   (forall p, ptr_ok c st p -> ptr_ok c st' p) -> (forall p, ptr_ok c st p -> Jp c st p -> Jp c st' p) ->
   obj_ok c st o -> obj_ok c st' o.
 Proof.
-  intros Hs Ha Hp HJ. destruct o; simpl; rewrite ?Hs, ?Ha; auto. intros [H1 H2]. auto.
+  intros Hs Ha Hp HJ. destruct o; simpl; rewrite ?Hs, ?Ha; auto. intros (H0 & H1 & H2). auto.
 Qed.
 
 Lemma Forall2_same {A} (R : A -> A -> Prop) l : (forall x, In x l -> R x x) -> Forall2 R l l.
@@ -41,7 +41,7 @@ Proof.
   { intros p Hp. split; [reflexivity|]. split; [apply deref_ext; auto|]. apply HJ, Hp. }
   assert (Hobj : forall o, obj_ok c st o -> obj_ok c st' o) by (intros; eapply obj_ok_ext; eauto).
   assert (HRO : forall o, obj_ok c st o -> RO c st st' o o).
-  { intros o Ho. destruct o; simpl in *; auto. destruct Ho; auto. }
+  { intros o Ho. destruct o; simpl in *; auto. destruct Ho as (? & ? & ?); auto. }
   split.
   - constructor; rewrite ?Hs, ?Ha, ?Hk, ?Htv, ?Hsc, ?Hacu; auto.
     + destruct (g_low _ _ G) as (H1 & H2 & _). auto.
@@ -168,7 +168,7 @@ Lemma obj_ok_same c st st' o : same_mem st st' -> obj_ok c st o -> obj_ok c st' 
 Proof.
   intros (H1 & H2 & H3 & H4 & H5 & H6 & H7 & H8 & H9). destruct o; simpl; rewrite ?H6, ?H7; auto.
   - apply ptr_ok_same, H1.
-  - intros [A B]. split; [eapply ptr_ok_same; eauto|eapply Jp_same_tmp; eauto].
+  - intros (A0 & A & B). split; [exact A0|]. split; [eapply ptr_ok_same; eauto|eapply Jp_same_tmp; eauto].
 Qed.
 
 Lemma Good_containers c st st' :
@@ -793,4 +793,115 @@ Proof.
     + rewrite Hs. intros fr o [].
     + rewrite Ht. intros o [].
   - unfold errR. spl; auto; try (intros; discriminate). unfold idle; auto.
+Qed.
+
+Lemma clear_all_good c st : Good c st -> stack st = [] -> Good c (clear_all st) /\ idle (clear_all st) \/ active st <> [].
+Proof.
+  intros G Hs. destruct (active st) eqn:Ea; [left|right; discriminate].
+  split; [|unfold idle, clear_all; simpl; auto].
+  constructor; unfold clear_all; simpl.
+  - unfold top. simpl. reflexivity.
+  - split; [lia|]. split; [lia|]. left; reflexivity.
+  - destruct (tmp st); [left; reflexivity|exact I].
+  - constructor.
+  - constructor.
+  - intros n v H. discriminate.
+  - intros n v H. discriminate.
+  - intros n d els H. discriminate.
+  - intros n d els H. discriminate.
+  - reflexivity.
+  - rewrite Hs. intros fr o [].
+  - intros o [].
+Qed.
+
+(* the state of the variables as BASIC sees it: a value for every scalar and every array element *)
+Definition sval_of (c : cfg) (st : state) (n : Z) : res (list Z) * Z :=
+  match lookup n (scal st) with
+  | Some (SStr p) => (deref c st p, 0)
+  | Some (SNum z) => (Ok [], z)
+  | None => (Ok [], 0)
+  end.
+Definition aval_of (c : cfg) (st : state) (n : Z) (i : nat) : res (list Z) := deref c st (arr_ptr st n i).
+
+Lemma reset_temporaries_good c st :
+  Good c st -> idle st ->
+  Good c (reset_temporaries st) /\ Jt (reset_temporaries st) /\ idle (reset_temporaries st) /\
+  (forall n, sval_of c (reset_temporaries st) n = sval_of c st n) /\
+  (forall n i, aval_of c (reset_temporaries st) n i = aval_of c st n i) /\
+  scal (reset_temporaries st) = scal st /\ arrs (reset_temporaries st) = arrs st /\
+  fns (reset_temporaries st) = fns st /\ totmem (reset_temporaries st) = totmem st /\ stksz (reset_temporaries st) = stksz st /\
+  scur (reset_temporaries st) = scur st /\ acur (reset_temporaries st) = acur st.
+Proof.
+  intros G (Hs & Ht & Ha). unfold reset_temporaries.
+  set (st1 := match tmp st with Some t => if t =? cur st then st else delete_last st | None => st end).
+  (* forget _temp for a moment: it is reset at the end *)
+  assert (Jnone : forall s p, Jp c (set_tmp s None) p) by (intros; unfold Jp; simpl; exact I).
+  assert (H1 : Good c (set_tmp st1 None) /\ scal st1 = scal st /\ arrs st1 = arrs st /\ stack st1 = [] /\ tvals st1 = [] /\
+               active st1 = [] /\ fns st1 = fns st /\ totmem st1 = totmem st /\ stksz st1 = stksz st /\
+               scur st1 = scur st /\ acur st1 = acur st /\
+               (forall p, ptr_ok c st p -> Jp c st p -> deref c st1 p = deref c st p)).
+  { assert (Hsame : Good c (set_tmp st None)).
+    { constructor; simpl; try exact I.
+      - exact (g_chain _ _ G). - exact (g_low _ _ G). - exact (g_nd_scal _ _ G). - exact (g_nd_arrs _ _ G).
+      - intros n v Hl Hn. destruct (g_scal _ _ G n v Hl Hn) as (p & -> & A & B). exists p. auto.
+      - exact (g_scal_num _ _ G).
+      - intros n d els Hl. destruct (g_arrs _ _ G n d els Hl) as [A B]. split; [exact A|]. intros p Hp. destruct (B p Hp). auto.
+      - exact (g_arrlen _ _ G). - exact (g_acur _ _ G).
+      - rewrite Hs. intros fr o []. - rewrite Ht. intros o []. }
+    unfold st1. destruct (tmp st) as [t|] eqn:Et; [|spl; auto].
+    destruct (t =? cur st) eqn:Etc; [spl; auto|]. apply Z.eqb_neq in Etc.
+    unfold delete_last. destruct (lookup (cur st + 1) (strs st)) as [bs|] eqn:El; [|spl; auto].
+    pose proof (g_chain _ _ G) as Hch. destruct (strs st) as [|[a0 b0] r] eqn:Es; [discriminate|].
+    simpl in Hch. destruct Hch as (-> & Hb0 & Hch). simpl in El. rewrite Z.eqb_refl in El. inversion El; subst b0.
+    assert (Hrm : remove_key (cur st + 1) ((cur st + 1, bs) :: r) = r) by (simpl; rewrite Z.eqb_refl; reflexivity).
+    rewrite Hrm.
+    assert (Hlt : cur st < t).
+    { pose proof (g_j1 _ _ G) as Hj. rewrite Et, Es in Hj. destruct Hj as [Hj|Hj]; [discriminate|lia]. }
+    (* pointers that are permanent keep their binding *)
+    assert (Hkeep : forall p, ptr_ok c st p -> Jp c st p ->
+                    ptr_ok c (set_tmp (set_strs (set_cur st (cur st + zlen bs)) r) None) p /\
+                    deref c (set_strs (set_cur st (cur st + zlen bs)) r) p = deref c st p).
+    { intros [l a] Hok HJ. unfold ptr_ok, deref, Jp in *. rewrite Et, Es in *. simpl in *.
+      destruct (l =? 0) eqn:El0; [apply Z.eqb_eq in El0; split; [intros; left; exact El0|reflexivity]|].
+      apply Z.eqb_neq in El0. destruct (var_start c <=? a) eqn:Ev; [|split; [intros; apply Z.leb_gt in Ev; lia|reflexivity]].
+      apply Z.leb_le in Ev. destruct (Hok Ev) as [H0|(x & Hx & Hz)]; [contradiction|].
+      assert (Hpos : 0 < l).
+      { destruct (a =? cur st + 1); [inversion Hx; subst; lia|]. apply (chain_lookup _ _ _ _ _ Hch) in Hx. lia. }
+      specialize (HJ Hpos Ev). assert (Ene : (a =? cur st + 1) = false) by (apply Z.eqb_neq; lia).
+      rewrite Ene in *. split; [intros _; right; eauto|reflexivity]. }
+    split.
+    - constructor; simpl; try exact I.
+      + replace (cur st + zlen bs + 1) with (cur st + 1 + zlen bs) by lia. exact Hch.
+      + destruct (g_low _ _ G) as (A & B & C). split; [exact A|]. split; [exact B|].
+        rewrite Es in C. destruct C as [C|C]; [discriminate|]. right. lia.
+      + exact (g_nd_scal _ _ G).
+      + exact (g_nd_arrs _ _ G).
+      + intros n v Hl Hn. destruct (g_scal _ _ G n v Hl Hn) as (p & -> & A & B). exists p. split; [reflexivity|].
+        split; [apply Hkeep; assumption|apply Jnone].
+      + exact (g_scal_num _ _ G).
+      + intros n d els Hl. destruct (g_arrs _ _ G n d els Hl) as [A B]. split; [exact A|].
+        intros p Hp. destruct (B p Hp). split; [apply Hkeep; assumption|apply Jnone].
+      + exact (g_arrlen _ _ G).
+      + exact (g_acur _ _ G).
+      + rewrite Hs. intros fr o [].
+      + rewrite Ht. intros o [].
+    - simpl. spl; auto. intros p Hok HJ. apply Hkeep; assumption. }
+  destruct H1 as (G1 & Hsc & Har & Hs1 & Ht1 & Ha1 & Hf1 & Htm1 & Hsz1 & Hscur1 & Hacur1 & Hderef).
+  destruct (fix_temporaries_good c (set_tmp st1 None) G1) as (G2 & HJ2 & HR2 & _).
+  change (fix_temporaries (set_tmp st1 None)) with (set_tmp st1 (Some (cur st1))) in G2, HJ2.
+  split; [exact G2|]. split; [exact HJ2|]. split; [unfold idle; simpl; auto|].
+  split.
+  - intros n. unfold sval_of. simpl. rewrite Hsc. destruct (lookup n (scal st)) as [[p|z]|] eqn:El; auto.
+    destruct (is_strname n) eqn:En.
+    + destruct (g_scal _ _ G n _ El En) as (q & Eq & A & B). inversion Eq; subst q.
+      unfold deref at 1. simpl. fold (deref c st1 p). rewrite Hderef by assumption. reflexivity.
+    + destruct (g_scal_num _ _ G n _ El En) as (z & Hz). discriminate.
+  - split.
+    + intros n i. unfold aval_of, arr_ptr. simpl. rewrite Har. destruct (lookup n (arrs st)) as [[d els]|] eqn:El.
+      * destruct (g_arrs _ _ G n d els El) as [_ B].
+        destruct (nth_in_or_default i els (0, 0)) as [Hin|Hd].
+        -- destruct (B _ Hin). unfold deref at 1. simpl. fold (deref c st1 (nth i els (0, 0))). rewrite Hderef by assumption. reflexivity.
+        -- rewrite Hd. reflexivity.
+      * reflexivity.
+    + simpl. spl; auto.
 Qed.
